@@ -6,6 +6,8 @@ Everything is stated for an arbitrary network `net : Ip → Query → NetReply` 
 graph, every hostile server — and an arbitrary starting state (caches of earlier requests).
 -/
 import HickoryVerif.Model.Recursor
+import HickoryVerif.Proofs.C04
+import HickoryVerif.Proofs.C04Bounds
 
 namespace HickoryVerif.C19
 open HickoryVerif HickoryVerif.Recursor
@@ -61,27 +63,39 @@ built pool into the name-server cache and the CNAME counter.  `Stable I PoolOK` 
 state invariant `I` survives these four, given that the pools used satisfy `PoolOK`; the lemmas
 below lift this through every loop and through both recursions, for every network. -/
 
-structure StableNs (cfg : Config) (net : Net) (I : St → Prop) (PoolOK : Pool → Prop) : Prop where
+structure StableNs (cfg : Config) (net : Net) (I : St → Prop) (PoolOK : Pool → Prop)
+    (Ask : Pool → Name → Prop) (Fit : Pool → List Name → Prop) : Prop where
   root : PoolOK (rootPool cfg)
   cached : ∀ st z p, I st → nsGet st.nscache z = some p → PoolOK p
   fresh : ∀ ips z, (∀ ip ∈ ips, cfg.serverFilter.denied ip = false) → PoolOK ⟨ips, z⟩
   rezone : ∀ p z, PoolOK p → PoolOK { p with zone := z }
   poolLookup : ∀ st pool q, I st → PoolOK pool → I (poolLookup cfg net pool q st).1
-  lookup : ∀ st pool q zone, I st → PoolOK pool → I (lookup cfg net q zone pool st).1
-  nsPut : ∀ st z p, I st → PoolOK p → I { st with nscache := nsPut st.nscache z p }
+  /-- `Ask pool zone`: the recursor may call `lookup` on `pool` with `zone` as bailiwick -/
+  lookup : ∀ st pool q zone, I st → PoolOK pool → Ask pool zone →
+    I (lookup cfg net q zone pool st).1
+  nsPut : ∀ st z ips, I st → PoolOK ⟨ips, z⟩ → I { st with nscache := nsPut st.nscache z ⟨ips, z⟩ }
+  askSelf : ∀ p, PoolOK p → Ask p p.zone
+  /-- `Fit pool zs`: `pool` is the right pool to continue the zone descent `zs` with -/
+  fitRoot : ∀ n, Fit (rootPool cfg) (zonesOf n)
+  fitHead : ∀ p z zs, Fit p (z :: zs) → Ask p (base z)
+  fitTail : ∀ p z zs, Fit p (z :: zs) → Fit p zs
+  fitCached : ∀ st p z zs p', I st → Fit p (z :: zs) → nsGet st.nscache z = some p' → Fit p' zs
+  fitFresh : ∀ p z zs ips, Fit p (z :: zs) → Fit ⟨ips, z⟩ zs
 
-structure Stable (cfg : Config) (net : Net) (I : St → Prop) (PoolOK : Pool → Prop) : Prop
-    extends StableNs cfg net I PoolOK where
+structure Stable (cfg : Config) (net : Net) (I : St → Prop) (PoolOK : Pool → Prop)
+    (Ask : Pool → Name → Prop) (Fit : Pool → List Name → Prop) : Prop
+    extends StableNs cfg net I PoolOK Ask Fit where
   cnames : ∀ st n, I st → I { st with cnames := n }
 
 section framework
 variable {cfg : Config} {net : Net} {I : St → Prop} {PoolOK : Pool → Prop}
+  {Ask : Pool → Name → Prop} {Fit : Pool → List Name → Prop}
 
 /-- what the inner loops need to know about the recursive call of `ns_pool_for_name` -/
 def NsRecOK (I : St → Prop) (PoolOK : Pool → Prop) (rec : NsRec) : Prop :=
   ∀ n d st, I st → I (rec n d st).1 ∧ ∀ d' p, (rec n d st).2 = .ok (d', p) → PoolOK p
 
-theorem pickPools_stable (S : StableNs cfg net I PoolOK) {rec : NsRec} (hrec : NsRecOK I PoolOK rec)
+theorem pickPools_stable (S : StableNs cfg net I PoolOK Ask Fit) {rec : NsRec} (hrec : NsRecOK I PoolOK rec)
     (zone : Name) (depth : Nat) (pool : Pool) (hpool : PoolOK pool) :
     ∀ (ns : List Name) (st : St), I st →
       I (pickPools rec zone depth pool ns st).1 ∧
@@ -117,13 +131,13 @@ theorem pickPools_stable (S : StableNs cfg net I PoolOK) {rec : NsRec} (hrec : N
       · exact hpool
       · exact h3 e he
 
-theorem lookupAddr_stable (S : StableNs cfg net I PoolOK) (p : Pool) (hp : PoolOK p) (n : Name)
+theorem lookupAddr_stable (S : StableNs cfg net I PoolOK Ask Fit) (p : Pool) (hp : PoolOK p) (n : Name)
     (ty : Nat) (st : St) (h : I st) : I (lookupAddr cfg net p n ty st).1 := by
   unfold lookupAddr
   have := S.poolLookup st p ⟨n, ty⟩ h hp
   split <;> rename_i heq <;> rw [heq] at this <;> exact this
 
-theorem lookupAddrs_stable (S : StableNs cfg net I PoolOK) :
+theorem lookupAddrs_stable (S : StableNs cfg net I PoolOK Ask Fit) :
     ∀ (pools : List (Pool × Name)) (st : St), (∀ e ∈ pools, PoolOK e.1) → I st →
       I (lookupAddrs cfg net pools st).1 := by
   intro pools
@@ -138,7 +152,7 @@ theorem lookupAddrs_stable (S : StableNs cfg net I PoolOK) :
     have h2 := lookupAddr_stable S p hp1 n T_AAAA _ h1
     exact ih _ (fun e he => hp e (by simp [he])) h2
 
-theorem appendIps_stable (S : StableNs cfg net I PoolOK) {rec : NsRec} (hrec : NsRecOK I PoolOK rec)
+theorem appendIps_stable (S : StableNs cfg net I PoolOK Ask Fit) {rec : NsRec} (hrec : NsRecOK I PoolOK rec)
     (zone : Name) (depth : Nat) (pool : Pool) (hpool : PoolOK pool) (need : List Name) (st : St)
     (h : I st) : I (appendIps cfg net rec zone depth pool need st).1 := by
   unfold appendIps
@@ -268,12 +282,13 @@ theorem appendIps_ok (rec : NsRec) (zone : Name) (depth : Nat) (pool : Pool) (ne
   unfold appendIps
   exact lookupAddrs_ok _ _
 
-theorem nsQuery_stable (S : StableNs cfg net I PoolOK) (zone : Name) (pool : Pool)
-    (hpool : PoolOK pool) (st : St) (h : I st) : I (nsQuery cfg net zone pool st).1 := by
+theorem nsQuery_stable (S : StableNs cfg net I PoolOK Ask Fit) (zone : Name) (pool : Pool)
+    (hpool : PoolOK pool) (hask : Ask pool (base zone)) (st : St) (h : I st) :
+    I (nsQuery cfg net zone pool st).1 := by
   unfold nsQuery
   split
   · exact h
-  · exact S.lookup st pool _ _ h hpool
+  · exact S.lookup st pool _ _ h hpool hask
 
 theorem buildPool_ips_ok (rec : NsRec) (zone : Name) (depth : Nat) (pool : Pool) (resp : Response)
     (st : St) :
@@ -285,7 +300,7 @@ theorem buildPool_ips_ok (rec : NsRec) (zone : Name) (depth : Nat) (pool : Pool)
   · exact appendIps_ok _ _ _ _ _ _
   · exact collectNs_ok st _ _ _ _ _ (addGlue_ok _ _ (by intro e he; cases he)) (by simp)
 
-theorem buildPool_stable (S : StableNs cfg net I PoolOK) {rec : NsRec} (hrec : NsRecOK I PoolOK rec)
+theorem buildPool_stable (S : StableNs cfg net I PoolOK Ask Fit) {rec : NsRec} (hrec : NsRecOK I PoolOK rec)
     (zone : Name) (depth : Nat) (pool : Pool) (hpool : PoolOK pool) (resp : Response) (st : St)
     (h : I st) :
     I (buildPool cfg net rec zone depth pool resp st).1 ∧
@@ -302,45 +317,60 @@ theorem buildPool_stable (S : StableNs cfg net I PoolOK) {rec : NsRec} (hrec : N
   · exact appendIps_stable S hrec _ _ _ hpool _ _ h
   · exact h
 
-theorem nsStep_stable (S : StableNs cfg net I PoolOK) {rec : NsRec} (hrec : NsRecOK I PoolOK rec)
-    (zone : Name) (depth : Nat) (pool : Pool) (hpool : PoolOK pool) (st : St) (h : I st) :
+theorem buildPool_zone (rec : NsRec) (zone : Name) (depth : Nat) (pool : Pool) (resp : Response)
+    (st : St) :
+    (buildPool cfg net rec zone depth pool resp st).2 =
+      ⟨(buildPool cfg net rec zone depth pool resp st).2.ips, zone⟩ := rfl
+
+theorem nsStep_stable (S : StableNs cfg net I PoolOK Ask Fit) {rec : NsRec}
+    (hrec : NsRecOK I PoolOK rec) (zone : Name) (zs : List Name) (depth : Nat) (pool : Pool)
+    (hpool : PoolOK pool) (hfit : Fit pool (zone :: zs)) (st : St) (h : I st) :
     I (nsStep cfg net rec zone depth pool st).1 ∧
-      ∀ d p, (nsStep cfg net rec zone depth pool st).2 = .next d p → PoolOK p := by
+      ∀ d p, (nsStep cfg net rec zone depth pool st).2 = .next d p → PoolOK p ∧ Fit p zs := by
+  have hsame : PoolOK pool ∧ Fit pool zs := ⟨hpool, S.fitTail _ _ _ hfit⟩
   unfold nsStep
   split
   · rename_i p hp
-    exact ⟨h, fun d p' heq => by cases heq; exact S.cached st zone p h hp⟩
+    exact ⟨h, fun d p' heq => by
+      cases heq; exact ⟨S.cached st zone p h hp, S.fitCached st pool zone zs p h hfit hp⟩⟩
   · split
     · exact ⟨h, fun d p heq => by cases heq⟩
-    · have hq := nsQuery_stable S zone pool hpool st h
+    · have hq := nsQuery_stable S zone pool hpool (S.fitHead _ _ _ hfit) st h
       split
       · rename_i st1 e heq
         rw [heq] at hq
         split
         · exact ⟨hq, fun d p heq => by cases heq⟩
-        · exact ⟨hq, fun d p heq => by cases heq; exact hpool⟩
+        · exact ⟨hq, fun d p heq => by cases heq; exact hsame⟩
       · rename_i st1 resp heq
         rw [heq] at hq
         split
-        · exact ⟨hq, fun d p heq => by cases heq; exact hpool⟩
+        · exact ⟨hq, fun d p heq => by cases heq; exact hsame⟩
         · have hb := buildPool_stable S hrec zone (depth + 1) pool hpool resp st1 hq
+          have hz := buildPool_zone (cfg := cfg) (net := net) rec zone (depth + 1) pool resp st1
           split
           rename_i st2 p2 heq2
-          rw [heq2] at hb
-          exact ⟨hb.1, fun d p heq => by cases heq; exact hb.2⟩
+          rw [heq2] at hb hz
+          refine ⟨hb.1, fun d p heq => ?_⟩
+          cases heq
+          refine ⟨hb.2, ?_⟩
+          dsimp only at hz
+          rw [hz]
+          exact S.fitFresh pool zone zs _ hfit
 
-theorem nsLoop_stable (S : StableNs cfg net I PoolOK) {rec : NsRec} (hrec : NsRecOK I PoolOK rec) :
-    ∀ (zs : List Name) (depth : Nat) (pool : Pool) (st : St), PoolOK pool → I st →
+theorem nsLoop_stable (S : StableNs cfg net I PoolOK Ask Fit) {rec : NsRec}
+    (hrec : NsRecOK I PoolOK rec) :
+    ∀ (zs : List Name) (depth : Nat) (pool : Pool) (st : St), PoolOK pool → Fit pool zs → I st →
       I (nsLoop cfg net rec zs depth pool st).1 ∧
       ∀ d p, (nsLoop cfg net rec zs depth pool st).2 = .ok (d, p) → PoolOK p := by
   intro zs
   induction zs with
   | nil =>
-    intro depth pool st hp h
+    intro depth pool st hp _ h
     exact ⟨h, fun d p heq => by simp only [nsLoop] at heq; cases heq; exact hp⟩
   | cons z zs ih =>
-    intro depth pool st hp h
-    have hs := nsStep_stable S hrec z depth pool hp st h
+    intro depth pool st hp hfit h
+    have hs := nsStep_stable S hrec z zs depth pool hp hfit st h
     unfold nsLoop
     split
     · rename_i st1 e heq
@@ -348,25 +378,25 @@ theorem nsLoop_stable (S : StableNs cfg net I PoolOK) {rec : NsRec} (hrec : NsRe
       exact ⟨hs.1, fun d p heq => by cases heq⟩
     · rename_i st1 d1 p1 heq
       rw [heq] at hs
-      exact ih d1 p1 st1 (hs.2 d1 p1 rfl) hs.1
+      exact ih d1 p1 st1 (hs.2 d1 p1 rfl).1 (hs.2 d1 p1 rfl).2 hs.1
 
-theorem nsPoolFuel_stable (S : StableNs cfg net I PoolOK) :
+theorem nsPoolFuel_stable (S : StableNs cfg net I PoolOK Ask Fit) :
     ∀ f, NsRecOK I PoolOK (nsPoolFuel cfg net f) := by
   intro f
   induction f with
   | zero => intro n d st h; exact ⟨h, fun d' p heq => by cases heq⟩
   | succ f ih =>
     intro n d st h
-    exact nsLoop_stable S ih _ _ _ _ S.root h
+    exact nsLoop_stable S ih _ _ _ _ S.root (S.fitRoot n) h
 
-theorem nsPoolForName_stable (S : StableNs cfg net I PoolOK) :
+theorem nsPoolForName_stable (S : StableNs cfg net I PoolOK Ask Fit) :
     NsRecOK I PoolOK (nsPoolForName cfg net) := nsPoolFuel_stable S _
 
 /-! the `resolve` side -/
 
 def ResRecOK (I : St → Prop) (rec : ResRec) : Prop := ∀ q d st, I st → I (rec q d st).1
 
-theorem chaseLoop_stable (S : Stable cfg net I PoolOK) {rec : ResRec} (hrec : ResRecOK I rec)
+theorem chaseLoop_stable (S : Stable cfg net I PoolOK Ask Fit) {rec : ResRec} (hrec : ResRecOK I rec)
     (resp : Response) (qtype depth : Nat) :
     ∀ (rs chain : List Record) (st : St), I st →
       I (chaseLoop rec resp qtype depth rs chain st).1 := by
@@ -393,7 +423,7 @@ theorem chaseLoop_stable (S : Stable cfg net I PoolOK) {rec : ResRec} (hrec : Re
             rw [heq] at hr
             exact ih _ st1 hr
 
-theorem resolveCnames_stable (S : Stable cfg net I PoolOK) {rec : ResRec} (hrec : ResRecOK I rec)
+theorem resolveCnames_stable (S : Stable cfg net I PoolOK Ask Fit) {rec : ResRec} (hrec : ResRecOK I rec)
     (resp : Response) (q : Query) (depth : Nat) (st : St) (h : I st) :
     I (resolveCnames cfg rec resp q depth st).1 := by
   unfold resolveCnames
@@ -409,17 +439,17 @@ theorem resolveCnames_stable (S : Stable cfg net I PoolOK) {rec : ResRec} (hrec 
         · rename_i st1 e heq; rw [heq] at hc; exact hc
         · rename_i st1 chain heq; rw [heq] at hc; exact hc
 
-theorem answerQuery_stable (S : StableNs cfg net I PoolOK) (q : Query) (pool : Pool)
+theorem answerQuery_stable (S : StableNs cfg net I PoolOK Ask Fit) (q : Query) (pool : Pool)
     (hpool : PoolOK pool) (st : St) (h : I st) : I (answerQuery cfg net q pool st).1 := by
   unfold answerQuery
   split
   · exact h
   · split
     · exact h
-    · exact S.lookup st pool _ _ h hpool
-  · exact S.lookup st pool _ _ h hpool
+    · exact S.lookup st pool _ _ h hpool (S.askSelf pool hpool)
+  · exact S.lookup st pool _ _ h hpool (S.askSelf pool hpool)
 
-theorem resolveMiss_stable (S : Stable cfg net I PoolOK) {rec : ResRec} (hrec : ResRecOK I rec)
+theorem resolveMiss_stable (S : Stable cfg net I PoolOK Ask Fit) {rec : ResRec} (hrec : ResRecOK I rec)
     (q : Query) (depth : Nat) (st : St) (h : I st) :
     I (resolveMiss cfg net rec q depth st).1 := by
   unfold resolveMiss
@@ -438,7 +468,7 @@ theorem resolveMiss_stable (S : Stable cfg net I PoolOK) {rec : ResRec} (hrec : 
       rw [heq2] at ha
       exact resolveCnames_stable S hrec resp q d1 st2 ha
 
-theorem resolveFuel_stable (S : Stable cfg net I PoolOK) :
+theorem resolveFuel_stable (S : Stable cfg net I PoolOK Ask Fit) :
     ∀ f, ResRecOK I (resolveFuel cfg net f) := by
   intro f
   induction f with
@@ -455,7 +485,7 @@ theorem resolveFuel_stable (S : Stable cfg net I PoolOK) :
 
 /-- **Every invariant that survives the four primitive state changes survives a whole
 resolution — for every network.** -/
-theorem resolve_stable (S : Stable cfg net I PoolOK) (q : Query) (st : St) (h : I st) :
+theorem resolve_stable (S : Stable cfg net I PoolOK Ask Fit) (q : Query) (st : St) (h : I st) :
     I (resolve cfg net q st).1 := by
   unfold resolve
   split
@@ -685,7 +715,7 @@ def CacheClean (st : St) : Prop :=
   ∀ q r, (q, Except.ok r) ∈ st.rcache →
     ∃ a ∈ st.asked, a.2.2 = q ∧ ∀ x ∈ r.all, isSubzone a.2.1 x.name = true
 
-theorem cacheClean_stable (cfg : Config) (net : Net) : Stable cfg net CacheClean (fun _ => True) where
+theorem cacheClean_stable (cfg : Config) (net : Net) : Stable cfg net CacheClean (fun _ => True) (fun _ _ => True) (fun _ _ => True) where
   root := trivial
   cached := fun _ _ _ _ _ => trivial
   fresh := fun _ _ _ => trivial
@@ -697,7 +727,7 @@ theorem cacheClean_stable (cfg : Config) (net : Net) : Stable cfg net CacheClean
     rw [h3]
     exact h q' r hm
   lookup := by
-    intro st pool q zone h _ q' r hm
+    intro st pool q zone h _ _ q' r hm
     obtain ⟨_, _, _, h4, _, _, h7, _⟩ := lookup_frame cfg net q zone pool st
     rw [h4]
     rcases h7 _ hm with h' | ⟨e0, h'⟩ | ⟨r', h', hb, _⟩
@@ -707,6 +737,12 @@ theorem cacheClean_stable (cfg : Config) (net : Net) : Stable cfg net CacheClean
     · cases h'
       exact ⟨(pool.zone, zone, q), by simp, rfl, hb⟩
   nsPut := fun st z p h _ => h
+  askSelf := fun _ _ => trivial
+  fitRoot := fun _ => trivial
+  fitHead := fun _ _ _ _ => trivial
+  fitTail := fun _ _ _ _ => trivial
+  fitCached := fun _ _ _ _ _ _ _ _ => trivial
+  fitFresh := fun _ _ _ _ _ => trivial
   cnames := fun st n h => h
 
 /-- **`cached_in_bailiwick`**: a whole resolution — any network, any query, any limits, any
@@ -745,7 +781,7 @@ theorem nsGet_mem {c : List (Name × Pool)} {z : Name} {p : Pool} (h : nsGet c z
   exact ⟨e.1, List.mem_of_find?_eq_some he, by simpa using List.find?_some he⟩
 
 theorem addrInv_stable (cfg : Config) (net : Net) :
-    Stable cfg net (AddrInv cfg) (PoolAllowed cfg) where
+    Stable cfg net (AddrInv cfg) (PoolAllowed cfg) (fun _ _ => True) (fun _ _ => True) where
   root := fun ip h => Or.inl h
   cached := by
     intro st z p h hg
@@ -762,7 +798,7 @@ theorem addrInv_stable (cfg : Config) (net : Net) :
     · exact h.1 e h'
     · exact hp _ h'.1
   lookup := by
-    intro st pool q zone h hp
+    intro st pool q zone h hp _
     obtain ⟨h1, _, _, _, h5, _, _, _⟩ := lookup_frame cfg net q zone pool st
     refine ⟨?_, by rw [h1]; exact h.2⟩
     intro e he
@@ -776,6 +812,12 @@ theorem addrInv_stable (cfg : Config) (net : Net) :
     rcases mem_nsPut he with rfl | h'
     · exact hp
     · exact h.2 e h'
+  askSelf := fun _ _ => trivial
+  fitRoot := fun _ => trivial
+  fitHead := fun _ _ _ _ => trivial
+  fitTail := fun _ _ _ _ => trivial
+  fitCached := fun _ _ _ _ _ _ _ _ => trivial
+  fitFresh := fun _ _ _ _ _ => trivial
   cnames := fun st n h => h
 
 /-- **`ns_addrs_allowed`** (global part): whatever the network answers, every address a
@@ -804,7 +846,7 @@ theorem nsCount_sub {a b : Response} (h : Sub a b) : nsCount a ≤ nsCount b :=
   (h.all.filter _).length_le
 
 theorem cacheBound_stable (cfg : Config) {net : Net} {N : Nat} (hN : NetBound net N) :
-    Stable cfg net (CacheBound N) (fun _ => True) where
+    Stable cfg net (CacheBound N) (fun _ => True) (fun _ _ => True) (fun _ _ => True) where
   root := trivial
   cached := fun _ _ _ _ _ => trivial
   fresh := fun _ _ _ => trivial
@@ -815,7 +857,7 @@ theorem cacheBound_stable (cfg : Config) {net : Net} {N : Nat} (hN : NetBound ne
     rw [h1] at hm
     exact h q' r hm
   lookup := by
-    intro st pool q zone h _ q' r hm
+    intro st pool q zone h _ _ q' r hm
     obtain ⟨_, _, _, _, _, _, h7, _⟩ := lookup_frame cfg net q zone pool st
     rcases h7 _ hm with h' | ⟨e0, h'⟩ | ⟨r', h', _, ip, _, r0, hn, hs⟩
     · exact h q' r h'
@@ -823,11 +865,17 @@ theorem cacheBound_stable (cfg : Config) {net : Net} {N : Nat} (hN : NetBound ne
     · cases h'
       exact Nat.le_trans (nsCount_sub hs) (hN ip q r0 hn)
   nsPut := fun st z p h _ => h
+  askSelf := fun _ _ => trivial
+  fitRoot := fun _ => trivial
+  fitHead := fun _ _ _ _ => trivial
+  fitTail := fun _ _ _ _ => trivial
+  fitCached := fun _ _ _ _ _ _ _ _ => trivial
+  fitFresh := fun _ _ _ _ _ => trivial
   cnames := fun st n h => h
 
 /-- the CNAME counter is not touched by anything on the name-server side -/
 theorem cnamesEq_stable (cfg : Config) (net : Net) (k : Nat) :
-    StableNs cfg net (fun st => st.cnames = k) (fun _ => True) where
+    StableNs cfg net (fun st => st.cnames = k) (fun _ => True) (fun _ _ => True) (fun _ _ => True) where
   root := trivial
   cached := fun _ _ _ _ _ => trivial
   fresh := fun _ _ _ => trivial
@@ -837,10 +885,16 @@ theorem cnamesEq_stable (cfg : Config) (net : Net) (k : Nat) :
     obtain ⟨_, _, _, h4, _⟩ := poolLookup_frame cfg net pool q st
     rw [h4]; exact h
   lookup := by
-    intro st pool q zone h _
+    intro st pool q zone h _ _
     obtain ⟨_, h2, _⟩ := lookup_frame cfg net q zone pool st
     rw [h2]; exact h
   nsPut := fun st z p h _ => h
+  askSelf := fun _ _ => trivial
+  fitRoot := fun _ => trivial
+  fitHead := fun _ _ _ _ => trivial
+  fitTail := fun _ _ _ _ => trivial
+  fitCached := fun _ _ _ _ _ _ _ _ => trivial
+  fitFresh := fun _ _ _ _ _ => trivial
 
 /-- cost of `ns_pool_for_name` with `f` levels of nesting left: `L = ns_recursion_limit`,
 `N` = NS records per response -/
@@ -1007,7 +1061,7 @@ theorem nsStep_cost (hN : NetBound net N) {rec : NsRec} {c : Nat} (hrec : NsCost
     · rename_i hlim
       have hd : depth + 1 < cfg.nsRecursionLimit := by simpa using hlim
       obtain ⟨hq1, hq2⟩ := nsQuery_cost (cfg := cfg) hN zone pool st h
-      have hqs := nsQuery_stable (cacheBound_stable cfg hN).toStableNs zone pool trivial st h
+      have hqs := nsQuery_stable (cacheBound_stable cfg hN).toStableNs zone pool trivial trivial st h
       split at heq
       · rename_i st1 e heq1
         rw [heq1] at hq1 hq2 hqs
@@ -1044,7 +1098,7 @@ theorem nsLoop_cost (hN : NetBound net N) {rec : NsRec} {c : Nat} (hrec : NsCost
   | nil => intro depth pool st _; simp [nsLoop]
   | cons z zs ih =>
     intro depth pool st h
-    have hs := nsStep_stable (cacheBound_stable cfg hN).toStableNs hrec.1 z depth pool trivial st h
+    have hs := nsStep_stable (cacheBound_stable cfg hN).toStableNs hrec.1 z zs depth pool trivial trivial st h
     unfold nsLoop
     split
     · rename_i st1 e heq
@@ -1374,7 +1428,7 @@ def Prov (st : St) (x : Record) : Prop := ∃ a ∈ st.asked, isSubzone a.2.1 x.
 
 /-- the log of `lookup` calls only grows -/
 theorem askedMem_stable (cfg : Config) (net : Net) (a : Name × Name × Query) :
-    Stable cfg net (fun st => a ∈ st.asked) (fun _ => True) where
+    Stable cfg net (fun st => a ∈ st.asked) (fun _ => True) (fun _ _ => True) (fun _ _ => True) where
   root := trivial
   cached := fun _ _ _ _ _ => trivial
   fresh := fun _ _ _ => trivial
@@ -1383,9 +1437,15 @@ theorem askedMem_stable (cfg : Config) (net : Net) (a : Name × Name × Query) :
     intro st pool q h _
     rw [(poolLookup_frame cfg net pool q st).2.2.1]; exact h
   lookup := by
-    intro st pool q zone h _
+    intro st pool q zone h _ _
     rw [(lookup_frame cfg net q zone pool st).2.2.2.1]; exact List.mem_cons_of_mem _ h
   nsPut := fun st z p h _ => h
+  askSelf := fun _ _ => trivial
+  fitRoot := fun _ => trivial
+  fitHead := fun _ _ _ _ => trivial
+  fitTail := fun _ _ _ _ => trivial
+  fitCached := fun _ _ _ _ _ _ _ _ => trivial
+  fitFresh := fun _ _ _ _ _ => trivial
   cnames := fun st n h => h
 
 section returned
@@ -1483,7 +1543,7 @@ theorem chaseLoop_ret {rec : ResRec} (hrec : ResRet rec) (resp : Response) (qtyp
             · exact prov_mono (fun a ha => hmono a ha) (hch x hx)
             · exact hret r' rfl x (by simp [Response.all, hx.1])
 
-theorem resolveCnames_ret (S : ∀ a, Stable cfg net (fun st => a ∈ st.asked) (fun _ => True))
+theorem resolveCnames_ret (S : ∀ a, Stable cfg net (fun st => a ∈ st.asked) (fun _ => True) (fun _ _ => True) (fun _ _ => True))
     {rec : ResRec} (hrec : ResRet rec) (resp : Response) (q : Query) (depth : Nat) (st : St)
     (h : CacheClean st) (hresp : ∀ x ∈ resp.all, Prov st x) (r : Response)
     (hr : (resolveCnames cfg rec resp q depth st).2 = .ok r) :
@@ -2179,5 +2239,471 @@ theorem nsQuery_in_bailiwick (cfg : Config) (net : Net) (zone : Name) (pool : Po
   exact ((lookup_frame cfg net ⟨zone, T_NS⟩ (base zone) pool st).2.2.2.2.2.2.2 r h).1
 
 end origin
+
+/-! ## 13. the bailiwick handed to the filter is inside the zone of the pool that is asked
+
+`cached_in_bailiwick` / `returned_in_bailiwick` speak about the zone `lookup` hands to the filter.
+This section shows that this zone is always inside the zone of the pool that is asked — the zone
+whose delegation produced the pool's addresses — so the records are inside "the zone the answering
+server was delegated". -/
+
+section askedSound
+
+/-- subzone test on label lists (what `isSubzone` computes) -/
+def isAnc (a b : Name) : Prop :=
+  a.fqdn = b.fqdn ∧ (a.labels.reverse.map Name.lowerLabel) <+: (b.labels.reverse.map Name.lowerLabel)
+
+theorem isSubzone_iff (a b : Name) : isSubzone a b = true ↔ isAnc a b := by
+  unfold isSubzone isAnc Name.zoneOf
+  by_cases hf : a.fqdn = b.fqdn
+  · simp [hf, List.isPrefixOf_iff_prefix]
+  · simp [hf]
+
+theorem isSubzone_refl (a : Name) : isSubzone a a = true :=
+  (isSubzone_iff a a).2 ⟨rfl, List.prefix_refl _⟩
+
+theorem isSubzone_trans {a b c : Name} (h1 : isSubzone a b = true) (h2 : isSubzone b c = true) :
+    isSubzone a c = true := by
+  rw [isSubzone_iff] at *
+  exact ⟨h1.1.trans h2.1, h1.2.trans h2.2⟩
+
+/-- names that are equal (`==`, case-insensitive) are the same zone -/
+theorem isSubzone_congr_left {k z c : Name} (h : k.eq z = true) : isSubzone k c = isSubzone z c := by
+  have hs := (C04.eq_iff k z).1 h
+  obtain ⟨hf, hl⟩ := hs
+  have hr : k.labels.reverse.map Name.lowerLabel = z.labels.reverse.map Name.lowerLabel := by
+    rw [List.map_reverse, List.map_reverse, hl]
+  unfold isSubzone Name.zoneOf
+  simp only [hf, hr]
+
+theorem trim_of_le {n : Name} {k : Nat} (h : k ≤ n.labels.length) :
+    trim n k = ⟨n.labels.drop (n.labels.length - k), true⟩ := by
+  unfold trim
+  have : ¬ k > n.labels.length := by omega
+  simp [this]
+
+theorem base_trim {n : Name} {i : Nat} (h : i + 1 ≤ n.labels.length) :
+    base (trim n (i + 1)) = ⟨n.labels.drop (n.labels.length - i), true⟩ := by
+  rw [trim_of_le h]
+  unfold base
+  have hlen : (List.drop (n.labels.length - (i + 1)) n.labels).length = i + 1 := by
+    simp only [List.length_drop]; omega
+  simp only [hlen, Nat.zero_lt_succ, ↓reduceIte, Nat.add_sub_cancel]
+  rw [trim_of_le (by simp only [hlen]; omega)]
+  simp only [hlen, List.drop_drop]
+  congr 2
+  omega
+
+theorem isAnc_drop (L : List Bytes) {a b : Nat} (h : b ≤ a) :
+    isAnc ⟨L.drop a, true⟩ ⟨L.drop b, true⟩ := by
+  refine ⟨rfl, ?_⟩
+  have hsplit : L.drop b = (L.drop b).take (a - b) ++ L.drop a := by
+    have := List.take_append_drop (a - b) (L.drop b)
+    rw [List.drop_drop] at this
+    have hab : b + (a - b) = a := by omega
+    rw [hab] at this
+    exact this.symm
+  show (L.drop a).reverse.map Name.lowerLabel <+: (L.drop b).reverse.map Name.lowerLabel
+  rw [hsplit, List.reverse_append, List.map_append]
+  exact List.prefix_append _ _
+
+theorem numLabels_le (n : Name) : n.numLabels ≤ n.labels.length := by
+  unfold Name.numLabels; split <;> omega
+
+/-- the zones of the descent are nested: an earlier one is an ancestor of the parent of a later one,
+and the root is an ancestor of every parent -/
+theorem zonesOf_nested (n : Name) :
+    (∀ z ∈ zonesOf n, isSubzone Name.root (base z) = true) ∧
+    (zonesOf n).Pairwise fun a b => isSubzone a (base b) = true := by
+  have hnl := numLabels_le n
+  constructor
+  · intro z hz
+    unfold zonesOf at hz
+    simp only [List.mem_map, List.mem_range] at hz
+    obtain ⟨i, hi, rfl⟩ := hz
+    rw [base_trim (by omega), isSubzone_iff]
+    exact ⟨rfl, by simp [Name.root]⟩
+  · unfold zonesOf
+    rw [List.pairwise_map]
+    refine List.Pairwise.imp_of_mem ?_ List.pairwise_lt_range
+    intro i j hi hj hij
+    simp only [List.mem_range] at hi hj
+    rw [base_trim (by omega), trim_of_le (by omega), isSubzone_iff]
+    exact isAnc_drop n.labels (by omega)
+
+/-- every cached pool is stored under its own zone -/
+def NsKeyed (st : St) : Prop := ∀ e ∈ st.nscache, e.2.zone = e.1
+
+/-- every recorded `lookup` call filtered with a zone inside the zone of the pool it asked -/
+def AskedSound (st : St) : Prop := ∀ a ∈ st.asked, isSubzone a.1 a.2.1 = true
+
+def FitDesc (p : Pool) (zs : List Name) : Prop :=
+  (∀ z ∈ zs, isSubzone p.zone (base z) = true) ∧ zs.Pairwise fun a b => isSubzone a (base b) = true
+
+theorem askedSound_stable (cfg : Config) (net : Net) :
+    Stable cfg net (fun st => NsKeyed st ∧ AskedSound st) (fun _ => True)
+      (fun p z => isSubzone p.zone z = true) FitDesc where
+  root := trivial
+  cached := fun _ _ _ _ _ => trivial
+  fresh := fun _ _ _ => trivial
+  rezone := fun _ _ _ => trivial
+  poolLookup := by
+    intro st pool q h _
+    obtain ⟨_, h2, h3, _⟩ := poolLookup_frame cfg net pool q st
+    exact ⟨by unfold NsKeyed; rw [h2]; exact h.1, by unfold AskedSound; rw [h3]; exact h.2⟩
+  lookup := by
+    intro st pool q zone h _ hask
+    obtain ⟨h1, _, _, h4, _⟩ := lookup_frame cfg net q zone pool st
+    refine ⟨by unfold NsKeyed; rw [h1]; exact h.1, ?_⟩
+    unfold AskedSound
+    rw [h4]
+    intro a ha
+    simp only [List.mem_cons] at ha
+    rcases ha with rfl | ha
+    · exact hask
+    · exact h.2 a ha
+  nsPut := by
+    intro st z ips h _
+    refine ⟨?_, h.2⟩
+    intro e he
+    rcases mem_nsPut he with rfl | h'
+    · rfl
+    · exact h.1 e h'
+  askSelf := fun p _ => isSubzone_refl p.zone
+  fitRoot := fun n => zonesOf_nested n
+  fitHead := fun p z zs h => h.1 z (by simp)
+  fitTail := fun p z zs h => ⟨fun z' hz' => h.1 z' (List.mem_cons_of_mem _ hz'), h.2.of_cons⟩
+  fitCached := by
+    intro st p z zs p' h hfit hg
+    obtain ⟨k, hk, hkz⟩ := nsGet_mem hg
+    have hzone : p'.zone = k := h.1 (k, p') hk
+    refine ⟨?_, hfit.2.of_cons⟩
+    intro z' hz'
+    rw [hzone, isSubzone_congr_left hkz]
+    exact (List.pairwise_cons.1 hfit.2).1 z' hz'
+  fitFresh := fun p z zs ips hfit =>
+    ⟨fun z' hz' => (List.pairwise_cons.1 hfit.2).1 z' hz', hfit.2.of_cons⟩
+  cnames := fun st n h => h
+
+/-- **`asked_in_pool_zone`**: in a whole resolution, for every network, every `lookup` call hands
+its filter a zone inside the zone of the pool it asks. -/
+theorem asked_in_pool_zone (cfg : Config) (net : Net) (q : Query) (st : St)
+    (h : NsKeyed st ∧ AskedSound st) :
+    NsKeyed (resolve cfg net q st).1 ∧ AskedSound (resolve cfg net q st).1 :=
+  resolve_stable (askedSound_stable cfg net) q st h
+
+/-- **`cached_in_pool_bailiwick`**: after any resolution over any network, every record of every
+positive cache entry is inside the zone of the pool that was asked for it. -/
+theorem cached_in_pool_bailiwick (cfg : Config) (net : Net) (q : Query) (st : St)
+    (h1 : CacheClean st) (h2 : NsKeyed st ∧ AskedSound st) :
+    ∀ q' r, (q', Except.ok r) ∈ (resolve cfg net q st).1.rcache →
+      ∃ a ∈ (resolve cfg net q st).1.asked, a.2.2 = q' ∧
+        ∀ x ∈ r.all, isSubzone a.1 x.name = true := by
+  intro q' r hm
+  obtain ⟨a, ha, hq, hx⟩ := cached_in_bailiwick cfg net q st h1 q' r hm
+  have hs := (asked_in_pool_zone cfg net q st h2).2 a ha
+  exact ⟨a, ha, hq, fun x hxr => isSubzone_trans hs (hx x hxr)⟩
+
+/-- **`returned_in_pool_bailiwick`**: every record of a returned message is inside the zone of a
+pool that was asked during (or, for cached data, before) the resolution. -/
+theorem returned_in_pool_bailiwick (cfg : Config) (net : Net) (q : Query) (st : St)
+    (h1 : CacheClean st) (h2 : NsKeyed st ∧ AskedSound st) (r : Response)
+    (hr : (resolve cfg net q st).2 = .ok r) :
+    ∀ x ∈ r.all, ∃ a ∈ (resolve cfg net q st).1.asked, isSubzone a.1 x.name = true := by
+  intro x hx
+  obtain ⟨a, ha, hz⟩ := returned_in_bailiwick cfg net q st h1 r hr x hx
+  exact ⟨a, ha, isSubzone_trans ((asked_in_pool_zone cfg net q st h2).2 a ha) hz⟩
+
+theorem askedSound_empty : NsKeyed St.empty ∧ AskedSound St.empty := by
+  constructor <;> intro e h <;> simp [St.empty] at h
+
+end askedSound
+
+/-! ## 14. the total `trim` / `base` of the model are `Name::trim_to` / `Name::base_name` (C04's
+model, with the `from_labels(..).unwrap()`) on every name the Rust type can hold -/
+
+theorem trimTo_eq {n : Name} (hn : C04.Bounded n) (k : Nat) : n.trimTo k = .ok (trim n k) := by
+  unfold Name.trimTo trim
+  split
+  · rfl
+  · have hdrop : ∀ l ∈ n.labels.drop (n.labels.length - k), 1 ≤ l.length ∧ l.length ≤ 63 :=
+      fun l hl => hn.2 l (List.mem_of_mem_drop hl)
+    have hsum := C04.sum_drop_le n.labels (n.labels.length - k)
+    have hlen : (n.labels.drop (n.labels.length - k)).length ≤ n.labels.length := by simp
+    have h1 := hn.1
+    unfold Name.encodedLen Name.dataLen at h1
+    obtain ⟨r, hr, hrl, hrf⟩ := C04.appendLabels_ok_of_fits Name.root _ hdrop (by
+      show Name.root.encodedLen + _ + _ ≤ 255
+      have : Name.root.encodedLen = 1 := rfl
+      omega)
+    have hfl : Name.fromLabels (n.labels.drop (n.labels.length - k)) = .ok r := by
+      unfold Name.fromLabels
+      have hany : (n.labels.drop (n.labels.length - k)).any
+          (fun l => !(Name.labelFromRaw l).isOk) = false := by
+        rw [List.any_eq_false]
+        intro l hl
+        have hraw : Name.labelFromRaw l = .ok l := C04.labelFromRaw_of_len (hdrop l hl)
+        simp [hraw, Outcome.isOk]
+      rw [hany]
+      simp only [Bool.false_eq_true, ↓reduceIte]
+      split
+      · omega
+      · exact hr
+    rw [hfl]
+    have : r = ⟨n.labels.drop (n.labels.length - k), true⟩ := by
+      cases r
+      simp only [Name.root, List.nil_append] at hrl hrf
+      subst hrl hrf
+      rfl
+    rw [this]
+
+theorem baseName_eq {n : Name} (hn : C04.Bounded n) : n.baseName = .ok (base n) := by
+  unfold Name.baseName base
+  split
+  · exact trimTo_eq hn _
+  · rfl
+
+/-! ## 15. `answers_allowed`: no address the answer filter denies is cached or returned in a message -/
+
+section answers
+variable {cfg : Config} {net : Net}
+
+/-- the record is no address record, or its address passes the answer filter -/
+def AnsOK (cfg : Config) (x : Record) : Prop := addrAllowed cfg.answerFilter x = true
+
+theorem denied_of_allowsAll {f : Acs} (h : f.allowsAll = true) (ip : Ip) : f.denied ip = false := by
+  unfold Acs.denied; simp [h]
+
+theorem answerFilter_allowed {f : Acs} {r r' : Response} (h : answerFilter f r = .ok r') :
+    ∀ x ∈ r'.all, addrAllowed f x = true := by
+  unfold answerFilter at h
+  split at h
+  · rename_i hall
+    cases h
+    intro x _
+    unfold addrAllowed
+    split
+    · simp [denied_of_allowsAll hall]
+    · rfl
+  · dsimp only at h
+    split at h
+    · cases h
+    · cases h
+      intro x hx
+      simp only [Response.all, List.mem_append, List.mem_filter] at hx
+      rcases hx with (hx | hx) | hx <;> exact hx.2
+
+theorem poolLookup_allowed (pool : Pool) (q : Query) (st : St) (r : Response)
+    (h : (poolLookup cfg net pool q st).2 = .ok r) : ∀ x ∈ r.all, AnsOK cfg x := by
+  unfold poolLookup at h
+  dsimp only at h
+  split at h
+  · exact answerFilter_allowed h
+  · cases h
+
+theorem sub_all_mem {a b : Response} (h : Sub a b) : ∀ x ∈ a.all, x ∈ b.all :=
+  fun _ hx => h.all.subset hx
+
+theorem lookup_allowed (q : Query) (zone : Name) (pool : Pool) (st : St) :
+    (∀ e ∈ (lookup cfg net q zone pool st).1.rcache, e ∈ st.rcache ∨ (∃ e0, e = (q, .error e0)) ∨
+      ∃ r, e = (q, .ok r) ∧ ∀ x ∈ r.all, AnsOK cfg x) ∧
+    (∀ r, (lookup cfg net q zone pool st).2 = .ok r → ∀ x ∈ r.all, AnsOK cfg x) := by
+  have hp := poolLookup_allowed (cfg := cfg) (net := net) pool q
+    { st with asked := (pool.zone, zone, q) :: st.asked }
+  have hf := poolLookup_frame cfg net pool q { st with asked := (pool.zone, zone, q) :: st.asked }
+  unfold lookup
+  dsimp only
+  split
+  · rename_i st1 e heq
+    rw [heq] at hf
+    refine ⟨?_, fun r hr => by cases hr⟩
+    intro x hx
+    rcases cacheErr_mem hx with h | h
+    · right; left; exact ⟨e, h⟩
+    · left; rw [hf.1] at h; exact h
+  · rename_i st1 r heq
+    rw [heq] at hp hf
+    have hr := hp r rfl
+    split
+    · refine ⟨?_, fun r hr => by cases hr⟩
+      intro x hx; left; rw [hf.1] at hx; exact hx
+    · rename_i r' hfil
+      have hr' : ∀ x ∈ r'.all, AnsOK cfg x :=
+        fun x hx => hr x (sub_all_mem (filterResponse_sub hfil) x hx)
+      refine ⟨?_, fun r2 h2 => by cases h2; exact hr'⟩
+      intro x hx
+      rcases cacheOk_mem hx with h | h
+      · right; right; exact ⟨r', h, hr'⟩
+      · left; rw [hf.1] at h; exact h
+
+/-- no positive cache entry carries an address the answer filter denies -/
+def CacheAns (cfg : Config) (st : St) : Prop :=
+  ∀ q r, (q, Except.ok r) ∈ st.rcache → ∀ x ∈ r.all, AnsOK cfg x
+
+theorem cacheAns_stable (cfg : Config) (net : Net) :
+    Stable cfg net (CacheAns cfg) (fun _ => True) (fun _ _ => True) (fun _ _ => True) where
+  root := trivial
+  cached := fun _ _ _ _ _ => trivial
+  fresh := fun _ _ _ => trivial
+  rezone := fun _ _ _ => trivial
+  poolLookup := by
+    intro st pool q h _ q' r hm
+    rw [(poolLookup_frame cfg net pool q st).1] at hm
+    exact h q' r hm
+  lookup := by
+    intro st pool q zone h _ _ q' r hm
+    rcases (lookup_allowed (cfg := cfg) (net := net) q zone pool st).1 _ hm with h' | ⟨e0, h'⟩ | ⟨r', h', hr'⟩
+    · exact h q' r h'
+    · cases h'
+    · cases h'; exact hr'
+  nsPut := fun st z p h _ => h
+  askSelf := fun _ _ => trivial
+  fitRoot := fun _ => trivial
+  fitHead := fun _ _ _ _ => trivial
+  fitTail := fun _ _ _ _ => trivial
+  fitCached := fun _ _ _ _ _ _ _ _ => trivial
+  fitFresh := fun _ _ _ _ _ => trivial
+  cnames := fun st n h => h
+
+theorem answerQuery_ans (q : Query) (pool : Pool) (st : St) (h : CacheAns cfg st) (r : Response)
+    (hr : (answerQuery cfg net q pool st).2 = .ok r) : ∀ x ∈ r.all, AnsOK cfg x := by
+  have hl := (lookup_allowed (cfg := cfg) (net := net) q pool.zone pool st).2
+  unfold answerQuery at hr
+  split at hr
+  · cases hr
+  · rename_i r0 hg
+    split at hr
+    · obtain ⟨k, hk⟩ := rcGet_mem hg
+      cases hr
+      exact h k _ hk
+    · exact hl r hr
+  · exact hl r hr
+
+def ResAns (cfg : Config) (rec : ResRec) : Prop :=
+  ResRecOK (CacheAns cfg) rec ∧
+    ∀ q d st, CacheAns cfg st → ∀ r, (rec q d st).2 = .ok r → ∀ x ∈ r.all, AnsOK cfg x
+
+theorem chaseLoop_ans {rec : ResRec} (hrec : ResAns cfg rec) (resp : Response) (qtype depth : Nat) :
+    ∀ (rs chain : List Record) (st : St), CacheAns cfg st → (∀ x ∈ chain, AnsOK cfg x) →
+      ∀ c, (chaseLoop rec resp qtype depth rs chain st).2 = .ok c → ∀ x ∈ c, AnsOK cfg x := by
+  intro rs
+  induction rs with
+  | nil =>
+    intro chain st _ hch c hc x hx
+    simp only [chaseLoop] at hc
+    cases hc; exact hch x hx
+  | cons r rs ih =>
+    intro chain st h hch c hc
+    unfold chaseLoop at hc
+    split at hc
+    · exact ih chain st h hch c hc
+    · rename_i target _
+      split at hc
+      · exact ih chain st h hch c hc
+      · dsimp only at hc
+        split at hc
+        · cases hc
+        · have hst : CacheAns cfg { st with cnames := st.cnames + 1 } := h
+          have hcl := hrec.1 ⟨target, qtype⟩ depth _ hst
+          have hret := hrec.2 ⟨target, qtype⟩ depth _ hst
+          split at hc
+          · cases hc
+          · rename_i st1 r' heq
+            rw [heq] at hcl hret
+            refine ih _ st1 hcl ?_ c hc
+            intro x hx
+            simp only [List.mem_append, List.mem_filter] at hx
+            rcases hx with hx | hx
+            · exact hch x hx
+            · exact hret r' rfl x (by simp [Response.all, hx.1])
+
+theorem resolveCnames_ans {rec : ResRec} (hrec : ResAns cfg rec) (resp : Response) (q : Query)
+    (depth : Nat) (st : St) (h : CacheAns cfg st) (hresp : ∀ x ∈ resp.all, AnsOK cfg x)
+    (r : Response) (hr : (resolveCnames cfg rec resp q depth st).2 = .ok r) :
+    ∀ x ∈ r.all, AnsOK cfg x := by
+  unfold resolveCnames at hr
+  split at hr
+  · cases hr; exact hresp
+  · split at hr
+    · cases hr; exact hresp
+    · dsimp only at hr
+      split at hr
+      · cases hr
+      · have hch := chaseLoop_ans hrec resp q.qtype (depth + 1) resp.all [] st h (by simp)
+        split at hr
+        · cases hr
+        · rename_i st1 chain heq
+          rw [heq] at hch
+          cases hr
+          intro x hx
+          simp only [Response.all, List.mem_append] at hx
+          rcases hx with ((hx | hx) | hx) | hx
+          · exact hresp x (by simp [Response.all, hx])
+          · exact hch chain rfl x hx
+          · exact hresp x (by simp [Response.all, hx])
+          · exact hresp x (by simp [Response.all, hx])
+
+theorem resolveMiss_ans {rec : ResRec} (hrec : ResAns cfg rec) (q : Query) (depth : Nat) (st : St)
+    (h : CacheAns cfg st) (r : Response) (hr : (resolveMiss cfg net rec q depth st).2 = .ok r) :
+    ∀ x ∈ r.all, AnsOK cfg x := by
+  unfold resolveMiss at hr
+  dsimp only at hr
+  have hn := nsPoolForName_stable (cacheAns_stable cfg net).toStableNs
+    (if q.qtype == T_DS then base q.name else q.name) depth st h
+  split at hr
+  · split at hr <;> cases hr
+  · rename_i st1 d1 pool heq
+    rw [heq] at hn
+    have ha := answerQuery_stable (cacheAns_stable cfg net).toStableNs q pool trivial st1 hn.1
+    have hret := answerQuery_ans (cfg := cfg) (net := net) q pool st1 hn.1
+    split at hr
+    · cases hr
+    · rename_i st2 resp heq2
+      rw [heq2] at ha hret
+      exact resolveCnames_ans hrec resp q d1 st2 ha (hret resp rfl) r hr
+
+theorem resolveFuel_ans : ∀ f, ResAns cfg (resolveFuel cfg net f) := by
+  intro f
+  induction f with
+  | zero =>
+    exact ⟨resolveFuel_stable (cacheAns_stable cfg net) 0, fun q d st _ r hr => by cases hr⟩
+  | succ f ih =>
+    refine ⟨resolveFuel_stable (cacheAns_stable cfg net) _, ?_⟩
+    intro q d st h r hr
+    unfold resolveFuel at hr
+    split at hr
+    · cases hr
+    · rename_i r0 hg
+      obtain ⟨k, hk⟩ := rcGet_mem hg
+      split at hr
+      · exact resolveCnames_ans ih r0 q d st h (h k r0 hk) r hr
+      · exact resolveMiss_ans ih q d st h r hr
+    · exact resolveMiss_ans ih q d st h r hr
+
+/-- **`answers_allowed`**: for every network, a message returned by `Recursor::resolve` carries no
+address record the answer filter denies, and neither does any positive entry the resolution leaves
+in the response cache.  (Negative outcomes are not covered: finding 9a.) -/
+theorem answers_allowed (cfg : Config) (net : Net) (q : Query) (st : St) (h : CacheAns cfg st) :
+    CacheAns cfg (resolve cfg net q st).1 ∧
+    ∀ r, (resolve cfg net q st).2 = .ok r → ∀ x ∈ r.all, AnsOK cfg x := by
+  refine ⟨resolve_stable (cacheAns_stable cfg net) q st h, ?_⟩
+  intro r hr
+  unfold resolve at hr
+  split at hr
+  · cases hr
+  · exact (resolveFuel_ans (cfg := cfg) (net := net) _).2 q 0 { st with cnames := 0 } h r hr
+
+theorem cacheAns_empty (cfg : Config) : CacheAns cfg St.empty := by
+  intro q r h; cases h
+
+end answers
+
+/-! non-vacuity of the composite statements: the empty state satisfies every invariant -/
+example (cfg : Config) (net : Net) (q : Query) :=
+  cached_in_pool_bailiwick cfg net q St.empty cacheClean_empty askedSound_empty
+example (cfg : Config) (net : Net) (q : Query) :=
+  answers_allowed cfg net q St.empty (cacheAns_empty cfg)
+example (cfg : Config) (net : Net) (q : Query) :=
+  ns_addrs_allowed cfg net q St.empty (addrInv_empty cfg)
 
 end HickoryVerif.C19
